@@ -1,5 +1,5 @@
 /* c06_framing.c — correspondence harness for the packet parser and TOC helpers (C06).
-   Modes:  enum <level>          exhaustive header-shape enumeration
+   Modes:  enum <level> [shard nshards]   exhaustive header-shape enumeration (optionally one shard of it)
            rand <seed> <n>       serialiser-driven structured fuzz + mutations
            helpers               all 256 TOC x 5 rates x packet shapes
            stdin                 answer `framing ...` lines read from stdin            */
@@ -115,8 +115,9 @@ static void run_rand(uint64_t seed, long cases)
    }
 }
 
-static void run_enum(int level)
+static void run_enum(int level, int shard, int nshards)
 {
+   int combo = 0;
    static unsigned char buf[4096];
    /* representative TOCs: every code x every distinct 48 kHz frame size */
    static const int cfgs[] = {0, 1, 2, 3, 16, 17, 12, 13, 18, 19};   /* 10,20,40,60 SILK; 10,20 hybrid; 2.5,5,10,20 CELT */
@@ -136,6 +137,7 @@ static void run_enum(int level)
       int nb3 = level ? nb : 4;
       int nb2 = level ? nb : 7;
       for (ci = 0; ci < ncfg; ci++) for (code = 0; code < 4; code++) for (sd = 0; sd < 2; sd++)
+      if (combo++ % nshards != shard) continue; else   /* (TOC config, code, framing) combinations are dealt round-robin to the shards */
       for (i1 = 0; i1 < nb1; i1++) {
          if (code != 3 && (b1q[i1] & 63) > 3 && b1q[i1] < 250) continue;   /* fewer classes when b1 is a length byte */
          for (i2 = 0; i2 < nb2; i2++) for (i3 = 0; i3 < nb3; i3++) for (fi = 0; fi < nf; fi++)
@@ -178,7 +180,7 @@ int main(int argc, char **argv)
    static char line[1 << 20];
    static unsigned char buf[1 << 19];
    vinstall_traps();
-   if (argc >= 3 && !strcmp(argv[1], "enum")) run_enum(atoi(argv[2]));
+   if (argc >= 3 && !strcmp(argv[1], "enum")) run_enum(atoi(argv[2]), argc >= 5 ? atoi(argv[3]) : 0, argc >= 5 ? atoi(argv[4]) : 1);
    else if (argc >= 4 && !strcmp(argv[1], "rand")) run_rand(strtoull(argv[2], 0, 10), atol(argv[3]));
    else if (argc >= 2 && !strcmp(argv[1], "helpers")) run_helpers();
    else if (argc >= 2 && !strcmp(argv[1], "stdin")) {
